@@ -84,6 +84,23 @@ CLAIMS = {
         "cannot be by this family. Trusted: AST scan of bind() sites in the installed jax, the inert/derivable tables (one reason per entry). Two genuine hits were repaired (lax.round 29bea5a, conv batch groups f5d6c8d).",
         "DESIGN.md §3 C01",
     ),
+    "C09": (
+        "dtype-provenance classification of every array reaching a non-downcasting constant sink + save/restore pairing of the x64 flag on the CFG",
+        "All ~240 sites where an array becomes a model constant without passing the float policy (ir.tensor, const_value=, tensor_attr, bind_const_for_var) are enumerated and the array's dtype provenance is "
+        "classified (explicit dtype / derived from an operand / parameter / default-float64 numpy literal); a default-float64 literal there puts a DOUBLE tensor into a single-precision export. "
+        "Every jax_enable_x64 update must be covered by a restoring finally and the restored value must have been read from jax.config on every path before the first update.",
+        "NOT decided: double-precision accuracy of an export, hidden float32 casts inside individual lowerings (no sound static rule in reach; said so rather than linted). Provenance that cannot be resolved "
+        "locally is UNRESOLVED (26 of 236 today).",
+        "DESIGN.md §3 C09",
+    ),
+    "C18": (
+        "must-pass-through analysis on the CFG of the comparison helper + cast-provenance check on comparison operands",
+        "In _run_allclose every path to a match verdict must pass the output-count comparison and, per output, a shape comparison and a value comparison whose failure branch returns (False, ...) and whose operands are "
+        "the reference and the model output; no operand may be cast to the other's dtype without a same-kind test on the path (the defect that made a model off by 0.9 pass); allclose must run under the scoped x64 "
+        "context; _build_ort_inputs must feed or raise for every session input. These are the False branches no pinned test drives.",
+        "Not decided: ONNX Runtime execution, tolerance arithmetic. The narrowing defect found by R-C18b was repaired (fix commit 91c6437).",
+        "DESIGN.md §3 C18",
+    ),
 }
 
 NOT_APPLICABLE = {
